@@ -737,6 +737,11 @@ func (w *PointsWriter) updateShardGroupAndShardKey(
 	if len(*asis) == 0 {
 		sameSg = false
 	}
+	// refresh the alive shards together with the cached shard group: a row rejected below
+	// (missing shard key) must not leave the list of the previous group behind for the next row
+	if !sameSg {
+		*asis = w.MetaClient.GetAliveShards(database, sg, false)
+	}
 
 	if !sameSg || !wh.sameMst {
 		if len(di.ShardKey.ShardKey) > 0 {
@@ -777,10 +782,6 @@ func (w *PointsWriter) updateShardGroupAndShardKey(
 			w.logger.Error("write failed", zap.Error(partialErr))
 			return
 		}
-	}
-
-	if !sameSg {
-		*asis = w.MetaClient.GetAliveShards(database, sg, false)
 	}
 
 	if (*si).Type == influxql.RANGE {
